@@ -21,7 +21,7 @@ ASSUMPTIONS = ["folded-equal keys, empty labels, leading underscores and framewo
                "(listed known findings, counted); load failures are C03's business (skipped, counted)"]
 POOLS = gen.ALL_KEY_POOLS + [gen.DIGIT_FIRST]
 EXCLUDED_BY_FINDING = {"pool-keys:" + k: v for k, v in gen.excluded_counts(POOLS, allow_digit_first=True).items()}
-FLOORS = {"needs-renaming": 0.5}
+FLOORS = {"needs-renaming": 0.3}
 
 
 @st.composite
